@@ -3,5 +3,6 @@ import NflowsModel.Properties.C16
 import NflowsModel.Properties.C16D
 import NflowsModel.Properties.C16M
 import NflowsModel.Properties.C16L
+import NflowsModel.Properties.C16O
 
 #audit_namespace Properties.C16
